@@ -11,6 +11,7 @@ import (
 func runC20(c *Ctx, r *Report) {
 	r.Rule("C20.R1", "terminal marking: on every path through one iteration of Insert's byte loop on which the byte is the last of the word, the child reached is marked as a word: the shared end marker is stored, a node is created with valid=true, or valid=true is stored on the existing node")
 	r.Rule("C20.R2", "validity survives the end-marker upgrade and is not invented: a node created in Insert gets valid=true exactly on the path where the replaced child was the end marker (the flag is a per-byte value: true from the end-marker arm, false from the nil arm, never carried over from an earlier byte)")
+	r.Rule("C20.R6", "the enumeration (AllBytes) returns before its child scan only under a condition that means the node has no children: nil receiver, the leaf flag of the shared end marker, or min > max")
 	r.Rule("C20.R3", "every store of a child pointer in Insert is followed, on all paths to the end of the iteration, by the min and max comparisons that widen [min,max]")
 	r.Rule("C20.R4", "enumeration loops over a byte range (i <= max with a uint8 counter) leave through an explicit i == 255 exit before the increment wraps")
 	r.Rule("C20.R5", "Contains is Prefix(word).IsValid(), IsValid/IsLeaf test nil first, and the shared end marker is valid and a leaf")
@@ -324,6 +325,74 @@ func runC20(c *Ctx, r *Report) {
 	}
 	if nLoops == 0 {
 		r.Undecided("no uint8 `i <= max` loop found in package trie")
+	}
+	// R6: enumeration leaves a node before scanning its children only when it has none
+	{
+		ab := c.SSAFn(c.Fn("trie", "Trie.AllBytes"))
+		abName := ssaFuncName(ab)
+		leafIdx := fieldIndex(trieT, "leaf")
+		// the child scan: the uint8 loop found for R4 in AllBytes (its header has the phi)
+		var scan *ssa.BasicBlock
+		for _, b := range ab.Blocks {
+			for _, in := range b.Instrs {
+				if phi, ok := in.(*ssa.Phi); ok {
+					if bt, ok := phi.Type().Underlying().(*types.Basic); ok && bt.Kind() == types.Uint8 {
+						scan = b
+					}
+				}
+			}
+		}
+		if scan == nil {
+			r.Undecided("C20.R6: child scan loop of AllBytes not found")
+		} else {
+			n6 := 0
+			for _, b := range ab.Blocks {
+				ret, ok := b.Instrs[len(b.Instrs)-1].(*ssa.Return)
+				if !ok || scan.Dominates(b) || b == ab.Recover {
+					continue
+				}
+				// can the scan still be reached from here? no: it is an early return. Which conditions select it?
+				n6++
+				okGuard := false
+				var seenConds []string
+				for _, cc := range controlling(b) {
+					switch x := cc.Cond.(type) {
+					case *ssa.BinOp:
+						// t == nil
+						if x.Op == token.EQL && cc.Edge == 0 && x.X == ssa.Value(ab.Params[0]) && isNilConst(x.Y) {
+							okGuard = true
+						}
+						// min > max: no child was ever stored (the constructor starts with min 255, max 0 and Insert only widens)
+						lx, ok1 := x.X.(*ssa.UnOp)
+						ly, ok2 := x.Y.(*ssa.UnOp)
+						if ok1 && ok2 {
+							fx, ok3 := lx.X.(*ssa.FieldAddr)
+							fy, ok4 := ly.X.(*ssa.FieldAddr)
+							if ok3 && ok4 {
+								op := x.Op
+								if cc.Edge == 1 {
+									op = negOp[op]
+								}
+								if (op == token.GTR && fx.Field == minIdx && fy.Field == maxIdx) || (op == token.LSS && fx.Field == maxIdx && fy.Field == minIdx) {
+									okGuard = true
+								}
+							}
+						}
+						seenConds = append(seenConds, x.String())
+					case *ssa.UnOp:
+						if fa, ok := x.X.(*ssa.FieldAddr); ok && fa.Field == leafIdx && cc.Edge == 0 && leafIdx >= 0 {
+							okGuard = true // the shared end marker: Insert never stores children into it (R1/R3 work on nodes it allocates)
+						}
+						seenConds = append(seenConds, x.String())
+					}
+				}
+				r.Check(okGuard, "C20.R6", abName, fmt.Sprintf("early return #%d of the enumeration is taken only for a node without children", n6), c.Pos(instrPos(ret)),
+					fmt.Sprintf("AllBytes returns before scanning the children under a condition that does not mean `no children` (conditions: %v; accepted: nil receiver, the leaf flag of the shared end marker, min > max): a node whose only child is byte 0 has max == 0 too, and the words below it disappear from the enumeration while Contains still finds them", seenConds))
+			}
+			if n6 == 0 {
+				r.OkWhy("C20.R6", abName, "no early return in the enumeration", c.Pos(ab.Pos()), "every return follows the child scan")
+			}
+		}
 	}
 	// R5
 	{
